@@ -210,14 +210,23 @@ pub fn ball_pivot_with_centers_2d(
         // between circles. The one with the intersection that has the smallest positive angle to
         // the last ball contact point is the one we choose to pivot on
         let mut best: Option<PivotPoint> = None;
+        // The ball currently rests on the working point and on the point we just came from: that
+        // one intersection (a pivot of 0 degrees) is where the ball is now, not a new contact. The
+        // other intersection with the same circle is a genuine contact (the ball going round a
+        // dead end touches the point it came from again, from the other side).
+        let came_from = if results.len() >= 2 {
+            Some(results[results.len() - 2])
+        } else {
+            None
+        };
+        let resting = centers.last().copied();
         for (ni, _) in neighbors.iter() {
-            // We want to skip the neighbor two elements back, because that's the one we just came
-            // from, and it will otherwise have a perfect intersection at 0 degrees.
-            if results.len() >= 2 && *ni == results[results.len() - 2] {
-                continue;
-            }
-
             for pi in circles[working_index].intersections_with(&circles[*ni]) {
+                if let (Some(prev), Some(c)) = (came_from, resting) {
+                    if *ni == prev && dist(&pi, &c) <= 1e-6 * radius {
+                        continue;
+                    }
+                }
                 let di = pi - points[working_index];
                 let angle = directed_angle(&direction, &di, pivot_direction);
                 if angle < 1e-6 {
